@@ -30,8 +30,8 @@ type c03Cfg struct {
 	umask uint32
 }
 
-// ids of the users created by newMemWithUsers: u1 1001:1001 (g1), u2 1002:1002 (g2), u3 1003:1001 (g1)
-var c03Users = [][2]int{{0, 0}, {1001, 1001}, {1002, 1002}, {1003, 1001}}
+// ids of the users created by newMemWithUsers: u1 1001:1001 (g1), u2 1002:1002 (g2), u3 1003:1001 (g1), u4 1004:0 (root's group)
+var c03Users = [][2]int{{0, 0}, {1001, 1001}, {1002, 1002}, {1003, 1001}, {1004, 0}}
 var c03Owners = [][2]int{{0, 0}, {1001, 1001}, {1002, 1002}, {1001, 1002}, {1002, 1001}, {1003, 1001}}
 
 func actorClass(actor int, n c03Node) string {
@@ -233,7 +233,7 @@ func init() {
 		Shards: shards(14, 16),
 		Meta: func(tier string) rt.Meta {
 			return rt.Meta{Level: "exploration", MinEvals: 20000, MinDistinct: 200,
-				Rule:        "differential against the kernel under a switched fsuid/fsgid (no supplementary groups) in a chroot on tmpfs: configurations /w/d1/d2/x and /w/e1/y with (owner, group, 9 permission bits) per node, acting user among owner / same-group / other / administrator, umask among {0,002,022,027,077,0777}; 38 calls. Exhaustive part: for every call, every one of the 512 modes of EACH ONE of d1, d2, x, e1 (others fully open) x 6 owner/group assignments x 4 users (quick: a seed-dependent 1/8 of the modes); random part: all nodes random. Compared: allow/refuse, errno, returned values, and the whole tree afterwards (owner, group, mode of created objects). Signature = call | kind of x | actor class | the actor's effective rwx on each node | outcome; non-trivial = acting user is not the administrator.",
+				Rule:        "differential against the kernel under a switched fsuid/fsgid (no supplementary groups) in a chroot on tmpfs: configurations /w/d1/d2/x and /w/e1/y with (owner, group, 9 permission bits) per node, acting user among owner / same-group / other / administrator / an ordinary user whose primary group is gid 0, umask among {0,002,022,027,077,0777}; 38 calls. Exhaustive part: for every call, every one of the 512 modes of EACH ONE of d1, d2, x, e1 (others fully open) x 6 owner/group assignments x 5 users (quick: a seed-dependent 1/8 of the modes); random part: all nodes random. Compared: allow/refuse, errno, returned values, and the whole tree afterwards (owner, group, mode of created objects). Signature = call | kind of x | actor class | the actor's effective rwx on each node | outcome; non-trivial = acting user is not the administrator.",
 				Assumptions: []string{"only the 9 permission bits are assigned (no setuid/setgid/sticky)", "fs.protected_hardlinks=1 on this kernel: Link of a file the caller neither owns nor can read+write is excluded and counted"}}
 		},
 		Timeout: func(tier string) int {
@@ -256,7 +256,7 @@ func init() {
 						if step > 1 && (int(mode)+int(c.Seed)+ni)%step != 0 {
 							continue
 						}
-						for actor := 0; actor < 4; actor++ {
+						for actor := 0; actor < len(c03Users); actor++ {
 							idx++
 							if idx%c.NShards != c.Shard {
 								continue
@@ -292,7 +292,7 @@ func init() {
 					continue
 				}
 				r := c.Rand(fmt.Sprintf("rnd-%d", h))
-				cfg := c03Cfg{nodes: c03Default(), actor: r.IntN(4), umask: []uint32{0o022, 0, 0o077, 0o027, 0o002, 0o777, uint32(r.IntN(512))}[r.IntN(7)]}
+				cfg := c03Cfg{nodes: c03Default(), actor: r.IntN(len(c03Users)), umask: []uint32{0o022, 0, 0o077, 0o027, 0o002, 0o777, uint32(r.IntN(512))}[r.IntN(7)]}
 				for i := range cfg.nodes {
 					own := c03Owners[r.IntN(len(c03Owners))]
 					cfg.nodes[i].uid, cfg.nodes[i].gid, cfg.nodes[i].mode = own[0], own[1], randMode(r)
